@@ -205,7 +205,15 @@ def main():
     cfg = default_quantization_config if rng.integers(0, 2) else CUSTOM_CFG
     limit = gen_limit(rng, ref, cfg)
     nl = len(ref.layers)
-    idxs = None if rng.integers(0, 3) else sorted(int(j) for j in rng.choice(nl, size=max(1, nl - int(rng.integers(1, 3))), replace=False))
+    r_ = 3 if i % 8 == 3 else int(rng.integers(0, 8))   # every eighth reference selects no layer
+    if r_ < 3:
+      idxs = None
+    elif r_ == 3:
+      idxs = []                     # select no layer at all
+    elif r_ == 4:
+      idxs = [int(rng.integers(0, nl))]
+    else:
+      idxs = sorted(int(j) for j in rng.choice(nl, size=max(1, nl - int(rng.integers(1, 3))), replace=False))
     tgt = forgiving_factor["bits"](8.0, 8.0, 2.0, stress=1.0, input_bits=8, output_bits=8, ref_bits=8, config={"default": ["parameters", "activations"]})
     try:
       import copy
